@@ -350,7 +350,7 @@ def run(job):
             prefix = [["in", f"1;255;0;0;17;{v}"], ["in", "1;1;0;0;6;t"]]
             for name, line in state_lines(v).items():
                 for ext in ("json", "pickle"):
-                    for pat in ("only", "after-tick", "after-two-ticks", "tick-after", "during-tick", "during-tick-mid-write"):
+                    for pat in ("only", "after-tick", "after-two-ticks", "tick-after", "during-tick", "during-tick-mid-write", "tick-while-dir-away"):
                         cfg = {"version": v, "flavour": fl, "ext": ext, "callback": pat != "after-tick" or ext == "json"}
                         if pat == "only":
                             steps = prefix + [["in", line], ["stop"]]
@@ -358,6 +358,9 @@ def run(job):
                             steps = prefix + [["tick"], ["in", line], ["stop"]]
                         elif pat == "after-two-ticks":
                             steps = prefix + [["tick"], ["tick"], ["in", line], ["stop"]]
+                        elif pat == "tick-while-dir-away":
+                            # the change is followed by a periodic save that cannot write (directory away for a moment)
+                            steps = prefix + [["tick"], ["in", line], ["tick-unwritable"], ["stop"]]
                         elif pat == "during-tick-mid-write":
                             # ... or has written only a part of the temp file so far
                             steps = prefix + [["tick"], ["in", "1;255;3;0;0;55"], ["stop-during-tick", line, "mid-write"]]
